@@ -50,4 +50,11 @@ theorem idFilterText_dropped_by_earlier (maxid : ℚ) (rows : List Row) (r : Nat
   · simp at h'
   · exact List.mem_range.mp h'
 
+/-- when every pair is linked nothing is added to a non-empty kept list -/
+theorem filterGreedy_all_linked (link : Nat → Nat → Bool) (hl : ∀ r k, link r k = true) (order : List Nat) (x : Nat)
+    (list : List Nat) : filterGreedy link order (x :: list) = x :: list := by
+  induction order with
+  | nil => rfl
+  | cons r rest ih => simp only [filterGreedy, List.any_cons, hl, Bool.true_or, if_true]; exact ih
+
 end EaselModel.Weights
